@@ -1,4 +1,4 @@
-import Proofs.Machine.ColorOnly
+import Proofs.Machine.ColorOnlyText
 /-!
 C02 — `--color-only` is a line-for-line, text-preserving filter.
 
@@ -168,5 +168,23 @@ theorem dangling_hunk_header_dropped :
     (match run presetCfg (["diff --git a/x b/x", "--- a/x", "+++ b/x", "@@ -1 +1 @@"].map mkL) with
      | .ok m => m.out.map (·.src)
      | .error _ => []) = [0, 1, 2] := by decide
+
+/-- **`color_only_text_preserved`** (whole runs; the presets `--color-only` implies are in force: raw
+commit / file / hunk-header styles, markers kept, tab width 0; unified git diff): every row of the
+output carries the raw line or the visible text of the input line it is stamped with. With
+`color_only_line_for_line` (row `i` is stamped `i`): output line `i` shows input line `i` unchanged. -/
+theorem color_only_text_preserved {cfg : Cfg} (ps : Preset cfg) {d : L} {ls : List L} {m : M}
+    (hd : detectSource d.text = .gitDiff) (hl : ∀ l ∈ d :: ls, l.grep ≠ 2 ∧ NotCombined l)
+    (hf : Followed false (d :: ls)) (e : run cfg (d :: ls) = .ok m) :
+    ∀ r ∈ m.out, ∃ l, (d :: ls)[r.src]? = some l ∧ (r.text = l.raw ∨ r.text = l.text) :=
+  run_color_only_text ps hd hl hf e
+
+example : Preset presetCfg := ⟨⟨rfl, rfl, rfl, rfl⟩, rfl, rfl, rfl, rfl, rfl⟩
+
+/-- the preset hypothesis matters: with a tab width the text of a hunk line with a TAB changes -/
+theorem tab_width_changes_text :
+    (match run { presetCfg with tab := 4 } (["diff --git a/x b/x", "--- a/x", "+++ b/x", "@@ -1 +1 @@", "+a\tb"].map mkL) with
+     | .ok m => m.out.map (·.text) == (["diff --git a/x b/x", "--- a/x", "+++ b/x", "@@ -1 +1 @@", "+a\tb"].map String.toList)
+     | .error _ => true) = false := by decide
 
 end C02
